@@ -581,7 +581,7 @@ func (lc *linCtx) rangeLoopsOver(fn *ssa.Function, isS func(ssa.Value) bool) []r
 		if k, ok := constInt(add.Y); !ok || k != 1 {
 			continue
 		}
-		okPhi := len(phi.Edges) == 2
+		okPhi := len(phi.Edges) >= 2 // several latches (continue statements) carry the same k+1
 		for _, e := range phi.Edges {
 			if k, ok := constInt(e); ok && k == -1 {
 				continue
